@@ -77,6 +77,12 @@ CHECKS = {
    text="Generated-input search plus an exhaustive payload x position grid: each documented payload (3 tautologies, 6 time-delay/dangerous calls, 4 UNION probes) is first scanned as the top-level WHERE condition (must carry its documented class and severity), then at 40 condition/expression/UNION positions up to nesting depth 2, in single- and multi-statement scripts, under random whitespace, letter case and redundant parentheses: the same (pattern, severity) must be reported; raising the minimum severity must filter exactly; counts must equal the list; the tree must not change; A,B,A scans must agree. The text scanner ScanSQL gets the whitespace/case invariance and threshold/count checks.",
    note="Trusted: the payload catalogue's documented class/severity (from the scanner's own tables/docs); containment on (pattern, severity) pairs, extra findings allowed; comments are not used as layout for the regex scanner.",
    design="4/C16"),
+ "C09": dict(
+   technique="stateful property-based testing (hold/release/churn histories with snapshot invariants and pool-draw distinctness) plus an exhaustive (pooled type, field) cleanliness sweep over a generated registry, and a model-equality parse after polluting every pool",
+   level="exploration",
+   text="(a) Exhaustive sweep: for every pooled type with a Put accessor and every exported field, a value with that field (and once every field) filled with arbitrary content is released; the released object and the next Get (same object on a pinned goroutine) must equal a fresh value. (b) Generated statements are parsed after fully populated values of every pooled type were released through PutX/PutExpression/ReleaseAST; the tree must still equal the model tree. (c) Generated histories of parse/tokenize/derive-and-hold, release, churn on this and other goroutines, pooled-tokenizer reuse and direct pool draws: every held value must keep its snapshot, and values drawn from the pools must be pairwise distinct and not part of any tree still held.",
+   note="Trusted: astdump as deep equality (capacities ignored); pool identity by goroutine pinning (counted). Goroutine interleavings in the churn action are the runtime's, not enumerated.",
+   design="4/C09"),
 }
 
 def main():
